@@ -311,10 +311,16 @@ func (x *Exec) stmt1(s ast.Stmt, st *State) flow {
 	case *ast.SendStmt:
 		// A-seq: a send on the unbuffered token channel completes when the receiver takes the value (or blocks for ever
 		// once the receiver has stopped - then the main goroutine has finished). No state change in the sender.
-		x.expr(env, n.Chan)
-		x.expr(env, n.Value)
+		ch := x.expr(env, n.Chan)
+		sv := x.expr(env, n.Value)
 		x.note("channel send modelled as a completed hand-over (assumption A-seq)")
 		if g, ok := x.st.ghost["sent"]; ok {
+			// sender-side log: the k-th send delivers spec_sent(k)
+			if ct, ok := ch.Ty.Underlying().(*types.Chan); ok {
+				sv = x.convertTo(sv, ct.Elem())
+				x.ctx.decl("fun:sf_spec_sent", fmt.Sprintf("(declare-fun sf_spec_sent (Int) %s)", x.ctx.Sort(ct.Elem())))
+				x.st.assume(eq("(sf_spec_sent "+g.S+")", sv.S))
+			}
 			x.st.ghost["sent"] = Val{"(+ " + g.S + " 1)", tInt}
 		}
 		return flow{next: x.st}
@@ -468,7 +474,7 @@ func (x *Exec) assignTo(lhs ast.Expr, v Val) {
 		if !ok {
 			x.fail(l.Pos(), "assignment to non-variable %s", l.Name)
 		}
-		c := x.convertTo(v, vv.Type())
+		c := x.named(x.convertTo(v, vv.Type()), vv.Name(), 400)
 		if x.boxed[vv] {
 			x.storeCell(x.st.vars[vv].S, c, vv.Type())
 			return
@@ -492,6 +498,7 @@ func (x *Exec) assignTo(lhs ast.Expr, v Val) {
 		base := x.expr(env, l.X)
 		switch u := base.Ty.Underlying().(type) {
 		case *types.Slice:
+			base = x.named(base, "sl", 80)
 			i := x.expr(env, l.Index)
 			x.oblige(env, "bounds", l.Pos(), and("(<= 0 "+i.S+")", "(< "+i.S+" "+x.ctx.slLen(base)+")"), "index in range: "+exprStr(l))
 			c := x.convertTo(v, u.Elem())
@@ -531,7 +538,7 @@ func (x *Exec) assignField(pos ast.Node, baseExpr ast.Expr, base Val, idx []int,
 		x.nilCheck(env, pos.Pos(), base)
 		if len(idx) == 1 {
 			c := x.convertTo(v, f.Type())
-			x.st.heap[f] = fmt.Sprintf("(store %s %s %s)", x.heapOf(x.st, f), base.S, c.S)
+			x.setHeap(f, fmt.Sprintf("(store %s %s %s)", x.heapOf(x.st, f), base.S, c.S))
 			return
 		}
 		inner := Val{fmt.Sprintf("(select %s %s)", x.heapOf(x.st, f), base.S), f.Type()}
@@ -541,7 +548,7 @@ func (x *Exec) assignField(pos ast.Node, baseExpr ast.Expr, base Val, idx []int,
 		}
 		// embedded struct value inside heap object
 		nv := x.updStruct(inner, idx[1:], v, pos)
-		x.st.heap[f] = fmt.Sprintf("(store %s %s %s)", x.heapOf(x.st, f), base.S, nv.S)
+		x.setHeap(f, fmt.Sprintf("(store %s %s %s)", x.heapOf(x.st, f), base.S, nv.S))
 		return
 	}
 	// struct value: update and write back to the base location
@@ -552,6 +559,27 @@ func (x *Exec) assignField(pos ast.Node, baseExpr ast.Expr, base Val, idx []int,
 	x.assignTo(baseExpr, nv)
 }
 
+// setHeap writes a new term for a heap field; a large term is replaced by a named constant (see named)
+func (x *Exec) setHeap(f *types.Var, term string) {
+	if len(term) > 600 && x.inSpec == 0 {
+		c := x.ctx.Fresh(x.heapName(f), fmt.Sprintf("(Array Int %s)", x.ctx.Sort(f.Type())))
+		x.st.assume(eq(c, term))
+		term = c
+	}
+	x.st.heap[f] = term
+}
+
+// named introduces a constant for a large term (definitional equality on the current path), so that repeated use of the
+// term - one copy per field in a struct update - does not multiply the size of the verification condition
+func (x *Exec) named(v Val, hint string, limit int) Val {
+	if len(v.S) <= limit || v.Ty == nil || x.inSpec > 0 {
+		return v
+	}
+	c := x.ctx.Fresh(sanitize(hint), x.ctx.Sort(v.Ty))
+	x.st.assume(eq(c, v.S))
+	return Val{c, v.Ty}
+}
+
 // updStruct returns base with the nested field path replaced by v (value structs only)
 func (x *Exec) updStruct(base Val, idx []int, v Val, pos ast.Node) Val {
 	st, ok := structOf(base.Ty)
@@ -559,6 +587,7 @@ func (x *Exec) updStruct(base Val, idx []int, v Val, pos ast.Node) Val {
 		x.fail(pos.Pos(), "field update on non-struct %s", base.Ty)
 	}
 	srt := x.ctx.Sort(base.Ty)
+	base = x.named(base, "sv", 40)
 	var parts []string
 	for j := 0; j < st.NumFields(); j++ {
 		f := st.Field(j)
@@ -633,8 +662,10 @@ func (x *Exec) switchStmt(n *ast.SwitchStmt, st *State, label string) flow {
 	}
 	cur = x.st
 	var exits []*State
-	var dflt *ast.CaseClause
 	rest := cur
+	// entry states in source order of the case expressions; the default clause is entered when none matches
+	entry := map[*ast.CaseClause]*State{}
+	var dflt *ast.CaseClause
 	for _, cs := range n.Body.List {
 		cc := cs.(*ast.CaseClause)
 		if cc.List == nil {
@@ -657,23 +688,34 @@ func (x *Exec) switchStmt(n *ast.SwitchStmt, st *State, label string) flow {
 		sIn.assume(c)
 		sOut := rest.clone()
 		sOut.assume(not(c))
-		f := x.block(cc.Body, sIn)
-		if hasFallthrough(cc.Body) {
-			x.fail(cc.Pos(), "UNSUPPORTED fallthrough")
-		}
-		exits = append(exits, f.next)
-		exits = append(exits, f.brk[""]...)
-		delete(f.brk, "")
-		if label != "" {
-			exits = append(exits, f.brk[label]...)
-			delete(f.brk, label)
-		}
-		out.absorb(f)
+		entry[cc] = sIn
 		rest = sOut
 	}
 	if dflt != nil {
-		f := x.block(dflt.Body, rest)
-		exits = append(exits, f.next)
+		entry[dflt] = rest
+	} else {
+		exits = append(exits, rest)
+	}
+	// bodies in source order; a clause ending in fallthrough continues in the body of the next clause
+	var fall *State
+	for _, cs := range n.Body.List {
+		cc := cs.(*ast.CaseClause)
+		in := entry[cc]
+		if fall != nil {
+			in = x.mergeAll([]*State{in, fall})
+			fall = nil
+		}
+		body := cc.Body
+		ft := hasFallthrough(body)
+		if ft {
+			body = body[:len(body)-1]
+		}
+		f := x.block(body, in)
+		if ft {
+			fall = f.next
+		} else {
+			exits = append(exits, f.next)
+		}
 		exits = append(exits, f.brk[""]...)
 		delete(f.brk, "")
 		if label != "" {
@@ -681,8 +723,6 @@ func (x *Exec) switchStmt(n *ast.SwitchStmt, st *State, label string) flow {
 			delete(f.brk, label)
 		}
 		out.absorb(f)
-	} else {
-		exits = append(exits, rest)
 	}
 	out.next = x.mergeAll(exits)
 	return out
